@@ -1,4 +1,4 @@
-CONSTANTS MaxView = 1 ByzBudget = 3 Blocks <- cBlocks Hdr <- cHdr Dev = {"StandalonePP"}
+CONSTANTS MaxView = 1 ByzBudget = 3 Blocks <- cBlocks Hdr <- cHdr Dev = {"StandalonePP"} Ablate = {}
 INIT Init
 NEXT Next
 INVARIANTS Agreement
